@@ -127,7 +127,7 @@ func (s *c34State) check(after string) *Violation {
 }
 
 var c34OpsLegal = []string{"new", "new", "getorcreate", "getorcreate", "append", "delete", "delete", "rename", "rename", "get", "getorcreatemap"}
-var c34OpsFault = []string{"new", "append", "append-nilkey", "rename", "rename", "delete", "nilrecv-get", "getorcreate"}
+var c34OpsFault = []string{"new", "append", "append-nilkey", "rename", "rename", "rename-unset", "delete", "nilrecv-get", "getorcreate"}
 
 func c34Exec(c *Case, generate bool) (*Violation, *execStats) {
 	st := newStats()
@@ -209,6 +209,13 @@ func c34Draw(r *simrt.Rng, s *c34State, faults bool) Op {
 		op.A["which"] = strconv.Itoa(r.Intn(4))
 	case "getorcreate", "delete", "get", "nilrecv-get":
 		op.A["key"] = strconv.Itoa(pi)
+	case "rename-unset":
+		if len(present) == 0 {
+			return Op{K: "getorcreate", A: map[string]string{"key": strconv.Itoa(pi)}}
+		}
+		op.A["key"] = strconv.Itoa(present[r.Intn(len(present))])
+		op.A["to"] = strconv.Itoa(r.Intn(len(s.pool)))
+		op.A["part"] = strconv.Itoa(r.Intn(8))
 	case "rename":
 		from, to := pi, r.Intn(len(s.pool))
 		if !faults {
@@ -225,6 +232,38 @@ func c34Draw(r *simrt.Rng, s *c34State, faults bool) Op {
 		op.A = nil
 	}
 	return op
+}
+
+// unsetKeyPart returns a copy of key k in which one enum / union part is unset (the enum's
+// zero value, a nil union); ok is false if the key has no such part.
+func unsetKeyPart(k reflect.Value, which int) (reflect.Value, bool) {
+	for k.Kind() == reflect.Interface && !k.IsNil() && k.Type().NumMethod() == 0 {
+		k = k.Elem()
+	}
+	isEnum := func(t reflect.Type) bool {
+		_, ok := t.MethodByName("IsYANGGoEnum")
+		return ok && t.Kind() == reflect.Int64
+	}
+	n := reflect.New(k.Type()).Elem()
+	n.Set(k)
+	switch {
+	case k.Kind() == reflect.Struct:
+		var idx []int
+		for i := 0; i < k.NumField(); i++ {
+			if ft := k.Type().Field(i).Type; ft.Kind() == reflect.Interface || isEnum(ft) {
+				idx = append(idx, i)
+			}
+		}
+		if len(idx) == 0 {
+			return n, false
+		}
+		f := n.Field(idx[which%len(idx)])
+		f.Set(reflect.Zero(f.Type()))
+		return n, true
+	case k.Kind() == reflect.Interface || isEnum(k.Type()):
+		return reflect.Zero(k.Type()), true
+	}
+	return n, false
 }
 
 func c34Apply(s *c34State, op Op) *Violation {
@@ -352,6 +391,35 @@ func c34Apply(s *c34State, op Op) *Violation {
 			s.st.Probes["state_changes"]++
 		} else {
 			s.st.Faults["delete_absent"]++
+		}
+	case "rename-unset":
+		// Rename to a key one of whose enum / union parts is unset (0 / nil). Whether the
+		// helper refuses or obeys is its business; the list must stay a map from key tuples to
+		// entries whose key leaves equal their map key: a refusal changes nothing, an accepted
+		// rename is undone by renaming back.
+		m := s.method("Rename")
+		if !m.IsValid() || !present {
+			return nil
+		}
+		to, _ := strconv.Atoi(op.arg("to"))
+		part, _ := strconv.Atoi(op.arg("part"))
+		nk, ok := unsetKeyPart(s.pool[to%len(s.pool)].Key, part)
+		if !ok {
+			return nil
+		}
+		s.st.Faults["rename_to_unset_key_part"]++
+		var out []reflect.Value
+		if p := callSUT(func() { out = m.Call(callArgs(m, []reflect.Value{pk.Key, nk})) }); p != nil {
+			return violation("C34", "panic", "C34:panic:rename-unset", "Rename%s(%s -> key with an unset part) panicked: %v", t.FieldName, pk.Str, p.v)
+		}
+		if errOf(out[0]) == nil {
+			var back []reflect.Value
+			if p := callSUT(func() { back = m.Call(callArgs(m, []reflect.Value{nk, pk.Key})) }); p != nil {
+				return violation("C34", "panic", "C34:panic:rename-unset", "Rename%s back from the key with an unset part panicked: %v", t.FieldName, p.v)
+			}
+			if err := errOf(back[0]); err != nil {
+				return violation("C34", "model-mismatch", sigp+"rename-unset-back", "Rename%s(%s -> key with an unset part) succeeded but renaming back fails: %v", t.FieldName, pk.Str, err)
+			}
 		}
 	case "rename":
 		to, _ := strconv.Atoi(op.arg("to"))
